@@ -305,8 +305,13 @@ pub async fn run_script_ticks(sc: &Script, max_ticks: u32) -> Option<Outcome> {
         }
         // after an inserted message the proxy renumbers the remaining clear-text messages of the server's flight
         if !from_client && seq_shift > 0 && (k == 12 || k == 14) {
-            outs = outs.iter().map(|d| { let r = &parse_records(d)[0]; let m = &parse_hs(&r.body)[0];
-                record_bytes(22, (r.vmaj, r.vmin), r.epoch, r.seq, &hs_bytes(m.typ, m.total, m.seq + seq_shift, m.off, &m.body)) }).collect();
+            outs = outs.iter().map(|d| {
+                let rs = parse_records(d);
+                match rs.first() {
+                    Some(r) if r.ctype == 22 && r.epoch == 0 && rs.len() == 1 => match parse_hs(&r.body).first() {
+                        Some(m) => record_bytes(22, (r.vmaj, r.vmin), r.epoch, r.seq, &hs_bytes(m.typ, m.total, m.seq + seq_shift, m.off, &m.body)),
+                        None => d.clone() },
+                    _ => d.clone() } }).collect();
         }
         if !from_client && k == 11 && sc.rules.iter().any(|r| r.act == Act::InsertCert) { seq_shift = 1; inserted_cert = true; }
         let slot = if from_client { &mut held.0 } else { &mut held.1 };
@@ -363,7 +368,8 @@ pub async fn run_script_ticks(sc: &Script, max_ticks: u32) -> Option<Outcome> {
     if let Some(spy) = spies { if spy.saw_connected() && !matches!(c.ep.letter(), 'C' | 'X') {
         fails.push((format!("state:watch-channel-showed-connected-but-handshake-ended-{}", c.ep.letter()), text.clone())); } }
     if forged && c.ep.letter() != 'F' { fails.push((format!("role:client:wrong-verify-data-not-rejected:ended-{}", c.ep.letter()), text.clone())); }
-    if inserted_cert && c.expected.is_some() && c.ep.letter() != 'F' {
+    // (in a multi-fault script the inserted message may never be reached in sequence — then Handshaking is a legitimate end)
+    if inserted_cert && c.expected.is_some() && (c.ep.letter() == 'C' || (sc.rules.len() == 1 && c.ep.letter() != 'F')) {
         fails.push((format!("role:client:non-matching-certificate-in-sequence-not-rejected:ended-{}", c.ep.letter()), text.clone()));
     }
     if let (Some(kc), Some(ks)) = (c.ep.keys(), s.ep.keys()) {
